@@ -496,10 +496,11 @@ func cmdFaults(args []string) {
 			}
 			return best
 		}
-		a1, a2 := alloc(250), alloc(500)
-		cases += 2
-		if a2 > 3*a1+(1<<16) {
-			emit(parseVerdict{Kind: "alloc", Type: *typ, In: []int{}, Note: fmt.Sprintf("superlinear: %d bytes allocated for 250 nesting levels with unknown fields, %d for 500", a1, a2), Fault: "nested-unknown"})
+		// increments between depths d, 2d, 4d: their ratio is 2 for linear growth and 4 for quadratic
+		a1, a2, a4 := alloc(500), alloc(1000), alloc(2000)
+		cases += 3
+		if a2 > a1 && float64(a4-a2) > 2.7*float64(a2-a1)+float64(1<<18) {
+			emit(parseVerdict{Kind: "alloc", Type: *typ, In: []int{}, Note: fmt.Sprintf("superlinear: %d / %d / %d bytes allocated for 500 / 1000 / 2000 nesting levels with unknown fields", a1, a2, a4), Fault: "nested-unknown"})
 		}
 	}
 	// length bombs: a length-delimited field claiming 2^k bytes with almost nothing behind it
